@@ -46,7 +46,7 @@ def seqsObs (seqs : List Seq) : Obs :=
     ("cover", if small then hexList (sortBytes (expandSeqs seqs)) else "big") ]
 
 def dispatchDisk : List String → Option (Obs × Option Obs)
-  | ["disk.scan", mask, st, arg, dirok, ents] =>
+  | "disk.scan" :: mask :: st :: arg :: dirok :: ents :: _dirname =>
     let o := optsOf (int! mask) (styleOf st)
     let arg := unhex arg
     let entries := parseEntries ents
